@@ -62,6 +62,12 @@ Section Flat.
     if n <=? win s then (f_advance s n, Ok (slice D (off s) n))
     else f_read_exact_std s n.
 
+  (* read to the end with an n-byte buffer, as a closed form: everything from the current offset
+     on, leaving the offset at the end of the data (a 0-byte buffer reads nothing) *)
+  Definition f_read_all (s : fstate) (n : N) : fstate * res (list N) :=
+    if n =? 0 then (fst (f_read s 0), Ok [])
+    else (mkF (N.max (off s) (len D)) 0, Ok (skipn (N.to_nat (off s)) D)).
+
   (* seek to in-frame offset u of the frame whose data starts at flat offset s0 *)
   Definition f_seek (s0 u : N) : fstate := mkF (s0 + u) (win_at cs s0 - u).
 
@@ -112,6 +118,7 @@ Definition fstep (f : file) (s : fstate) (o : op) : option (fstate * fout) :=
       end
   | SeekU p =>
       if p <=? total_dlen f then Some (f_seek_flat cs p, FPos (Ok p)) else None
+  | ReadAll n => let '(s', r) := f_read_all cs s n in Some (s', FBytes r)
   end.
 
 Definition out_eq (x : out) (y : fout) : Prop :=
